@@ -46,3 +46,8 @@ Proof.
   clear Hin. unfold safe in Hs. destruct (cons s); try discriminate. split; [reflexivity|].
   apply negb_true_iff in Hs. apply Nat.eqb_neq in Hs. assumption.
 Qed.
+
+(* ---- the operator driven directly (no immediate deferred cancel) ----------- *)
+
+Theorem concurrency_operator_safe_raw : forallb (check_all_raw true) totals = true.
+Proof. vm_compute. reflexivity. Qed.
